@@ -344,14 +344,7 @@ def _ev(e, env, memo):
                 shp = [x if isinstance(x, int) else _i(ev(x, env, memo)) for x in (TERM_SHAPES.get(e.get_id()) or FUNC_SHAPES[name])]
                 env["__opaque_used__"] = True
                 # the same value for the same function applied to numerically equal arguments (W(it) = W(m) when it = m)
-                argv = []
-                for c in ch:
-                    try:
-                        v = ev(c, env, memo)
-                        argv.append(repr(v.tolist()) if isinstance(v, np.ndarray) else repr(v))
-                    except (Unknown, Inadmissible):
-                        argv.append(c.sexpr())
-                h = (hash((name, tuple(argv))) ^ int(env.get("__opaque_seed__", 0))) % (2 ** 32)
+                h = (hash(_fingerprint(e, env, memo)) ^ int(env.get("__opaque_seed__", 0))) % (2 ** 32)
                 return np.random.default_rng(h).standard_normal(shp)
             else:
                 raise Unknown(f"operator {name}")
@@ -433,6 +426,32 @@ def _ev(e, env, memo):
     if k == z3.Z3_OP_POWER:
         return _sc(ev(ch[0], env, memo)) ** _sc(ev(ch[1], env, memo))
     raise Unknown(f"z3 operator {d.name()}")
+
+
+def _fingerprint(e, env, memo):
+    """numeric identity of a term: the (rounded) value where it can be evaluated, the operator applied to the fingerprints of
+    its arguments otherwise - two differently written but numerically equal conic problems get the same arbitrary solution"""
+    if z3.is_app(e) and e.num_args() > 0 and e.decl().kind() == z3.Z3_OP_UNINTERPRETED and e.decl().name() not in OPS:
+        return (e.decl().name(), tuple(_fingerprint(c, env, memo) for c in e.children()))
+    try:
+        saved = env.get("__opaque_ok__")
+        env["__opaque_ok__"] = False
+        try:
+            v = ev(e, env, {})
+        finally:
+            env["__opaque_ok__"] = saved
+        if isinstance(v, np.ndarray):
+            a = np.asarray(v, dtype=np.float64)
+            scale = float(np.max(np.abs(a))) if a.size else 0.0
+            q = np.round(a / scale, 7) if scale > 0 else a
+            return ("arr", a.shape, float(f"{scale:.6e}"), tuple(q.reshape(-1).tolist()))
+        if isinstance(v, float):
+            return float(f"{v:.7e}")
+        return v
+    except (Unknown, Inadmissible):
+        if z3.is_app(e) and e.num_args() > 0:
+            return (e.decl().name(), tuple(_fingerprint(c, env, memo) for c in e.children()))
+        return e.sexpr()
 
 
 def _b(x):
